@@ -36,6 +36,9 @@ pub struct Attach {
 }
 //@@ type file=fe2o3-amqp/src/link/state.rs kind=enum name=LinkState
 //@@ end
+pub open spec fn terminus_cond_r(e: ReceiverAttachError) -> bool {
+    e is SourceAddressIsNoneWhenDynamicIsTrue || e is TargetAddressIsSomeWhenDynamicIsTrue || e is DynamicNodePropertiesIsSomeWhenDynamicIsFalse
+}
 //@@ type file=fe2o3-amqp/src/link/error.rs kind=enum name=ReceiverAttachError
 //@@ subst `definitions::Error` => `AmqpError` rule=R11
 //@@ end
@@ -43,13 +46,15 @@ pub trait ErrInto<T>: Sized { spec fn conv(self) -> T; fn err_into(self) -> (r: 
 impl ErrInto<ReceiverAttachError> for ReceiverAttachError { open spec fn conv(self) -> ReceiverAttachError { self } fn err_into(self) -> (r: ReceiverAttachError) { let e = self; assert(e == <ReceiverAttachError as ErrInto<ReceiverAttachError>>::conv(self)); e } }
 impl SourceS {
     #[verifier::external_body]
-    pub fn verify_as_receiver(&self, other: &SourceS) -> (r: Result<(), ReceiverAttachError>) { unimplemented!() }
+    pub fn verify_as_receiver(&self, other: &SourceS) -> (r: Result<(), ReceiverAttachError>) ensures r is Err ==> terminus_cond_r(r->Err_0) { unimplemented!() }
 }
+/// `T::try_from(TargetArchetype)`: the link's own target type out of the archetype the attach carries (Target or Coordinator)
+pub uninterp spec fn target_conv(t: TargetArch) -> TargetS;
 impl TargetS {
     #[verifier::external_body]
-    pub fn try_from(t: TargetArch) -> (r: Result<TargetS, VerifyErr>) { unimplemented!() }
+    pub fn try_from(t: TargetArch) -> (r: Result<TargetS, VerifyErr>) ensures r is Ok ==> r->Ok_0 == target_conv(t) { unimplemented!() }
     #[verifier::external_body]
-    pub fn verify_as_receiver(&self, other: &TargetS) -> (r: Result<(), ReceiverAttachError>) { unimplemented!() }
+    pub fn verify_as_receiver(&self, other: &TargetS) -> (r: Result<(), ReceiverAttachError>) ensures r is Err ==> terminus_cond_r(r->Err_0) { unimplemented!() }
 }
 pub struct FlowS { pub initial_delivery_count: u32, pub delivery_count: u32, pub link_credit: u32 }
 // the read accessors of LinkFlowState (link/state.rs) on the lock-erased state (R4)
@@ -66,10 +71,11 @@ pub struct ReceiverLink {
 }
 pub fn unbox<T>(b: Box<T>) -> (r: T) ensures r == *b { *b }
 
+pub open spec fn mms(local: u64, remote: Option<u64>) -> u64 { match (local, remote) { (0, Some(x)) => x, (0, None) => 0, (l, Some(x)) => if x == 0 || l <= x { l } else { x }, (l, None) => l } }
 //@@ fn file=fe2o3-amqp/src/link/mod.rs name=get_max_message_size
 //@@ subst `u64::min(val, remote_max_msg_size)` => `(if val <= remote_max_msg_size { val } else { remote_max_msg_size })` rule=R9
 //@@ spec
-    ensures r == (match (local, remote) { (0, Some(x)) => x, (0, None) => 0, (l, Some(x)) => if x == 0 || l <= x { l } else { x }, (l, None) => l }),   // [C11.link.max-message-size] the smaller of the two limits; 0 / unset means no limit
+    ensures r == mms(local, remote),   // [C11.link.max-message-size] the smaller of the two limits; 0 / unset means no limit
 //@@ end
 
 impl ReceiverLink {
@@ -111,21 +117,29 @@ impl ReceiverLink {
             && final(self).flow_state.delivery_count == remote_attach.initial_delivery_count->Some_0
             && final(self).flow_state.initial_delivery_count == remote_attach.initial_delivery_count->Some_0,          // [C09.attach.delivery-count-from-sender] the receiver's view of the sender's delivery-count starts from the initial-delivery-count the sender states in its attach
         r is Ok ==> final(self).flow_state.link_credit == old(self).flow_state.link_credit,
+        r is Err && r->Err_0 is IllegalState ==> !(old(self).local_state is AttachSent || old(self).local_state is IncompleteAttachSent || old(self).local_state is Unattached || old(self).local_state is Detached),       // [C13.attach.refusal-names-its-reason]
+        r is Err && r->Err_0 is IncomingSourceIsNone ==> remote_attach.source is None,
+        r is Err && r->Err_0 is InitialDeliveryCountIsNone ==> remote_attach.initial_delivery_count is None,
         r is Ok ==> remote_attach.source is Some,                                                    // [C13.link.attach-without-source-refused] no source = the peer refuses to create the terminus: not attached
+        r is Ok ==> final(self).max_message_size == mms(old(self).max_message_size, remote_attach.max_message_size),       // [C01.attach.max-message-size-negotiated] [C06.attach.max-message-size-negotiated] after the exchange the link's max-message-size is the smaller of its own and the peer's (0 / unset = no limit): it is what send() checks a message against and what the reassembly refuses beyond
 //@@ end
 }
 
+/// the conditions the terminus checks (link/source.rs, link/target_archetype.rs: VerifySource / VerifyTargetArchetype) report: about addresses, dynamic nodes and transaction capabilities only
+pub open spec fn terminus_cond_s(e: SenderAttachError) -> bool {
+    e is SourceAddressIsSomeWhenDynamicIsTrue || e is TargetAddressIsNoneWhenDynamicIsTrue || e is DynamicNodePropertiesIsSomeWhenDynamicIsFalse || e is DesireTxnCapabilitiesNotSupported
+}
 //@@ type file=fe2o3-amqp/src/link/error.rs kind=enum name=SenderAttachError
 //@@ subst `definitions::Error` => `AmqpError` rule=R11
 //@@ end
 impl ErrInto<SenderAttachError> for SenderAttachError { open spec fn conv(self) -> SenderAttachError { self } fn err_into(self) -> (r: SenderAttachError) { let e = self; assert(e == <SenderAttachError as ErrInto<SenderAttachError>>::conv(self)); e } }
 impl SourceS {
     #[verifier::external_body]
-    pub fn verify_as_sender(&self, other: &SourceS) -> (r: Result<(), SenderAttachError>) { unimplemented!() }
+    pub fn verify_as_sender(&self, other: &SourceS) -> (r: Result<(), SenderAttachError>) ensures r is Err ==> terminus_cond_s(r->Err_0) { unimplemented!() }
 }
 impl TargetS {
     #[verifier::external_body]
-    pub fn verify_as_sender(&self, other: &TargetS) -> (r: Result<(), SenderAttachError>) { unimplemented!() }
+    pub fn verify_as_sender(&self, other: &TargetS) -> (r: Result<(), SenderAttachError>) ensures r is Err ==> terminus_cond_s(r->Err_0) { unimplemented!() }
 }
 pub struct SenderLink {
     pub local_state: LinkState, pub input_handle: Option<InputHandle>, pub snd_settle_mode: SenderSettleMode, pub rcv_settle_mode: ReceiverSettleMode,
@@ -139,7 +153,7 @@ impl SenderLink {
     { unimplemented!() }
     #[verifier::external_body]
     pub fn handle_unsettled_in_attach(&mut self, u: Option<Unsettled>) -> (r: Result<SenderAttachExchange, SenderAttachError>)
-        ensures *final(self) == *old(self),
+        ensures *final(self) == *old(self), r is Ok,       // (unit UNSETTLED: it never fails)
     { unimplemented!() }
 
 //@@ fn file=fe2o3-amqp/src/link/sender_link.rs impl=`~impl<T>endpoint::LinkAttachforSenderLink<T>` name=on_incoming_attach
@@ -159,7 +173,12 @@ impl SenderLink {
             _ => r == Err::<SenderAttachExchange, SenderAttachError>(SenderAttachError::IllegalState) && *final(self) == *old(self),
         }),                                                                                          // [C13.link.attach-received-state] [C15.link.duplicate-attach-refused]
         r is Ok ==> final(self).input_handle is Some && final(self).input_handle->Some_0.0 == remote_attach.handle.0,   // [C11.link.input-handle-from-attach]
+        r is Err && r->Err_0 is IllegalState ==> !(old(self).local_state is AttachSent || old(self).local_state is IncompleteAttachSent || old(self).local_state is Unattached || old(self).local_state is Detached),       // [C13.attach.refusal-names-its-reason] the error an attach is refused with is the reason for it -- it decides what `handle_attach_error` does next (unit LINKEXCH): `IllegalState` = nothing is written; a missing terminus or an unsupported settle mode = the link is closed with a detach
+        r is Err && r->Err_0 is IncomingTargetIsNone ==> remote_attach.target is None,
+        r is Err && r->Err_0 is SndSettleModeNotSupported ==> ((old(self).snd_settle_mode is Settled && remote_attach.snd_settle_mode is Unsettled) || (old(self).snd_settle_mode is Unsettled && remote_attach.snd_settle_mode is Settled)),
         r is Ok ==> remote_attach.target is Some,                                                    // [C13.link.attach-without-target-refused] a null target in the receiver's attach = it refuses to create the terminus: the sender does not consider itself attached
+        r is Ok ==> final(self).max_message_size == mms(old(self).max_message_size, remote_attach.max_message_size),       // [C01.attach.max-message-size-negotiated] [C06.attach.max-message-size-negotiated] after the exchange the link's max-message-size is the smaller of its own and the peer's (0 / unset = no limit): it is what send() checks a message against and what the reassembly refuses beyond
+        r is Ok ==> final(self).target == (match remote_attach.target { Some(b) => Some(target_conv(*b)), None => None::<TargetS> }),       // [C01.attach.sender-takes-the-receivers-target] the sender's record of the target is the one the receiver's attach states (for a dynamic node: the address the peer created) -- what resumption and the application's `target()` go by
         r is Ok ==> final(self).rcv_settle_mode == remote_attach.rcv_settle_mode,                    // [C02.attach.rcv-settle-mode-from-receiver] the receiver's settle mode in use is the one ITS attach states (it decides whether the sender owes a settling disposition)
         r is Ok ==> !((old(self).snd_settle_mode is Settled && remote_attach.snd_settle_mode is Unsettled) || (old(self).snd_settle_mode is Unsettled && remote_attach.snd_settle_mode is Settled)),   // [C02.attach.snd-settle-mode-conflict-refused]
 //@@ end
